@@ -587,3 +587,48 @@ def x8(ctx, rep, rule="X8"):
             rep.add(rule, ("narrow-arithmetic-reviewed:" if row else "narrow-arithmetic-unbounded:") + key, row is not None, b.where(bb),
                     row or "nothing bounds this %d-bit %s: it overflows (panics where overflow is checked) once the value reaches %d" % (mx.bit_length(), "addition" if t["ops"][0] == "Add" else "multiplication", mx))
     rep.floor(rule, "narrow-arithmetic-sites", n, 8)
+
+
+def x9(ctx, rep, rule="X9"):
+    """Operations of the standard library that are partial: division and remainder (divisor 0), `ilog2` / `ilog10` / `ilog`
+    (argument 0), `next_power_of_two` (overflow).  On the analysis path the argument must be a non-zero constant or be proved
+    at least 1 by the linear guards in force — `max_block_size.ilog2()` is not `while x > 0 { n += 1; x >>= 1 }` for x = 0."""
+    F = ctx.lib
+    n = nconst = 0
+    seen = {}
+    for dn in _analysis_defs(F):
+        b = F.bodies[dn]
+        short = dn.replace(P, "")
+        L = facts = inn = None
+        for bb in sorted(b.normal_blocks()):
+            t = b.term(bb)
+            arg = what = None
+            if t["k"] == "assert" and str(t.get("msg")) in ("DivisionByZero", "RemainderByZero"):
+                cp = op_place(t["cond"]) if t.get("cond") else None
+                d0 = b.single_def(cp["l"]) if cp is not None and not cp["p"] else None
+                if d0 and d0[2] == "assign" and d0[3]["k"] == "binop" and d0[3]["op"] == "Eq":
+                    arg, what = d0[3]["l"], "divisor"
+            elif t["k"] == "call" and re.search(r"::(ilog2|ilog10|ilog)$", strip_generics(callee_def(t))) and t["args"]:
+                arg, what = t["args"][0], strip_generics(callee_def(t)).split("::")[-1] + " argument"
+            if arg is None:
+                continue
+            k = flow.const_eval(b, arg)
+            if k is not None:
+                nconst += 1
+                if k == 0:
+                    rep.add(rule, "partial-operation:%s|%s" % (short, what), False, b.where(bb), "%s is the constant 0" % what)
+                continue
+            n += 1
+            if L is None:
+                L, sites, facts, inn, out = lin.sites_and_facts(F, b)
+            env = lin._env_at_term(L, b, bb, inn)
+            v = L.operand(env, arg)
+            here = [f for f in facts if lin.holds_at(b, f[0], bb)]
+            ok = v is not TOP and lin.entailed(aff_add(v, aff_const(1), -1), here) is not None
+            d = flow.describe(b, arg, names=True)[:60]
+            key0 = "%s|%s:%s" % (short, what, d)
+            seen[key0] = seen.get(key0, 0) + 1
+            rep.add(rule, "partial-operation:" + key0 + ("" if seen[key0] == 1 else "#%d" % seen[key0]), ok, b.where(bb),
+                    "%s %s is at least 1 by the guards in force" % (what, d) if ok else "nothing shows that the %s %s is not 0" % (what, d))
+    rep.stats["x9"] = {"variable_argument_sites": n, "constant_argument_sites": nconst}
+    rep.add(rule, "partial-operations-scanned", True, "", "%d with a variable argument, %d with a non-zero constant" % (n, nconst))
